@@ -199,3 +199,38 @@ Proof.
   - intros [I G]. split; auto. apply grouped_spec; auto. apply I.
   - intros [I G]. split; auto. apply grouped_spec; auto. apply I.
 Qed.
+
+(* ------------------------------------------------------------------------------------------ *)
+(* what clause (ii) says for a multiplexer and for a memory port, in terms of the views         *)
+(* ------------------------------------------------------------------------------------------ *)
+Lemma tin_drv : forall g n nd i b, getn g n = Some nd -> drv g (n, i) = Some b -> tin g nd i = otype g b.
+Proof. intros. unfold tin. unfold drv in H0. simpl in H0. rewrite H in H0. rewrite H0. reflexivity. Qed.
+
+Theorem mux_inputs_have_output_type : forall g n nd k i b t,
+  getn g n = Some nd -> n_req nd = kind_req (KMux k) -> node_okb g nd = true ->
+  1 <= i <= k -> drv g (n, i) = Some b -> otype g b = Some t -> otype g (n, 0) = Some t.
+Proof.
+  intros g n nd k i b t Hn Hr Hok Hi Hd Ht. unfold node_okb in Hok. rewrite Hr in Hok. simpl in Hok.
+  rewrite forallb_forall in Hok.
+  assert (Hin : In (CEqOut i 0) (map (fun k0 => CEqOut (S k0) 0) (seq 0 k))).
+  { destruct i as [|i']; [lia|]. apply in_map_iff. exists i'. split; auto. apply in_seq. lia. }
+  specialize (Hok _ Hin). simpl in Hok. rewrite (tin_drv g n nd i b Hn Hd), Ht in Hok.
+  rewrite (tout_otype g n nd 0 Hn) in Hok.
+  destruct (otype g (n, 0)) as [t'|]; [|discriminate]. destruct (ctype_eq_dec t t'); [congruence|discriminate].
+Qed.
+
+Theorem memport_widths : forall g n nd ab db,
+  getn g n = Some nd -> n_req nd = kind_req (KMemPort ab db) -> node_okb g nd = true ->
+  (forall b t, drv g (n, 2) = Some b -> otype g b = Some t -> ct_width t = ab) /\
+  (forall b t, drv g (n, 3) = Some b -> otype g b = Some t -> ct_width t = db) /\
+  (forall b t, drv g (n, 0) = Some b -> otype g b = Some t -> ct_width t = 1%N) /\
+  (forall b t, drv g (n, 1) = Some b -> otype g b = Some t -> ct_width t = 1%N).
+Proof.
+  intros g n nd ab db Hn Hr Hok. unfold node_okb in Hok. rewrite Hr in Hok. simpl in Hok.
+  repeat (apply andb_true_iff in Hok; destruct Hok as [? Hok]).
+  repeat split; intros b t Hd Ht;
+    match goal with
+    | H : match tin g nd ?i with _ => _ end = true |- _ =>
+        match type of Hd with drv g (n, i) = _ => rewrite (tin_drv g n nd i b Hn Hd), Ht in H; apply N.eqb_eq in H; exact H end
+    end.
+Qed.
